@@ -96,10 +96,19 @@ func TransportSafe(loc valgen.Loc, v any) bool {
 		}
 		return true
 	}
-	if vtree.Kind(v) != "s" {
+	if vtree.Kind(v) != "s" && vtree.Kind(v) != "y" {
 		return true
 	}
 	t := vtree.Text(v)
+	if vtree.Kind(v) == "y" {
+		if loc == valgen.Body {
+			return true
+		}
+		t = TextOf(v) // bytes outside the body travel verbatim as text
+		if t == "" {
+			return true
+		}
+	}
 	switch loc {
 	case valgen.Cookie:
 		for i := 0; i < len(t); i++ {
